@@ -47,6 +47,7 @@ STUBS = {
     "recv-handlers": lambda callee: callee.get("name", "").startswith("process_recv_v"),
     "ids": None,
     "allrc": None,
+    "recv-packet": lambda callee: callee.get("name", "") == "process_recv_packet",
 }
 
 
@@ -132,7 +133,7 @@ def pel(x):
         return str(x[2]) if len(x) > 2 and x[2] is not None else str(x[1])
     if len(x) > 1:
         return str(x[1])
-    return x[0]
+    return str(x[0])
 
 
 def short(v, d=0):
